@@ -25,7 +25,10 @@ PID = "C19"
 PROJ = ["out", "jobs", "tree", "trans", "exc"]
 SNIPPETS = [b"1;0;1;0;23;43\n", b"255;255;3;0;3;\r\n", b"1;255;0;0;17;2.2\n", b"garbage\n", b"\n", b"\r\n", b"1;0;1;0;47;\xc3\xa9t\xc3\xa9\n",
             b"1;0;1;0;47;\xf0\x9f\x98\x80\r\n", b"\xff\xfe\n", b"1;0;1;0;47;\xc3\n", b"no newline yet", b"9;0;2;0;0;\n", b";;;;;\n",
-            b"1;255;3;0;6;0\n\n", b"\r", b"\xe2\x82"]
+            b"1;255;3;0;6;0\n\n", b"\r", b"\xe2\x82",
+            # characters that str.splitlines() / bytes.splitlines() treat as line ends but the protocol does not
+            b"1;0;1;0;47;a\x0bb\n", b"1;0;1;0;47;a\x0cb\x1cc\x1dd\x1ee\n", b"1;255;3;0;11;sk\xc2\x85etch\n",
+            b"1;255;3;0;12;1\xe2\x80\xa8.0\r\n", b"1;0;1;0;47;a\rb\n"]
 
 
 class _Stub:
@@ -48,11 +51,14 @@ class _Stub:
         return None
 
 
-def feed_protocol(stream, cuts, loss_at=None):
-    """loss_at: byte position at which the connection is lost (without error) and made again before the rest arrives."""
-    from mysensors.transport import BaseMySensorsProtocol
+def feed_protocol(stream, cuts, loss_at=None, cls="base"):
+    """loss_at: byte position at which the connection is lost (without error) and made again before the rest arrives.
+    cls: which of the library's protocol classes receives the bytes (threaded base / asyncio serial / asyncio TCP)."""
+    from mysensors.transport import BaseMySensorsProtocol, AsyncMySensorsProtocol
+    from mysensors.gateway_tcp import AsyncTCPMySensorsProtocol
     gw = _Stub()
-    proto = BaseMySensorsProtocol(gw, lambda: None)
+    gw.cancel_check_conn = None
+    proto = {"base": BaseMySensorsProtocol, "aserial": AsyncMySensorsProtocol, "atcp": AsyncTCPMySensorsProtocol}[cls](gw, lambda: None)
     conn = type("Conn", (), {"close": lambda self: None})()
     conn.serial = conn
     proto.connection_made(conn)
@@ -171,14 +177,19 @@ def framing_records(tier, rng):
             cutsets = [[i for i in range(1, n) if (mask >> (i - 1)) & 1] for mask in range(1 << max(0, n - 1))]
         else:
             special = [i for i in range(1, n) if stream[i] >= 128 or stream[i - 1] == 13 or stream[i] == 10]
-            cutsets = [[], list(range(1, n)), special] + [sorted(rng.sample(range(1, n), rng.randint(1, min(6, n - 1))))
+            after_lf = [i for i in range(1, n) if stream[i - 1] == 10]         # every chunk is a whole number of lines
+            cutsets = [[], list(range(1, n)), special, after_lf] + [sorted(rng.sample(range(1, n), rng.randint(1, min(6, n - 1))))
                                                            for _ in range(6 if tier == "quick" else 25)]
-        for cuts in cutsets:
-            obs = feed_protocol(stream, cuts)
+        for ci, cuts in enumerate(cutsets):
+            obs = feed_protocol(stream, cuts, cls=("base", "aserial", "atcp")[ci % 3])
             F.append([classes(stream), [lid(x) for x in obs], [lid(x) for x in ref]])
         for cuts in cutsets[:3]:
             obs = feed_tcp(stream, cuts)
             F.append([classes(stream), [lid(x) for x in obs], [lid(x) for x in ref]])
+            # whole-line and unsplit deliveries also to the asyncio protocol classes
+            for cls in ("aserial", "atcp"):
+                obs = feed_protocol(stream, cuts, cls=cls)
+                F.append([classes(stream), [lid(x) for x in obs], [lid(x) for x in ref]])
         if n >= 3:
             # the connection is lost and made again somewhere in the stream (in the middle of a line, at a line end): the
             # lines are still those of the bytes received, whatever the chunks
